@@ -1,6 +1,7 @@
 import ComposeVerif.Ops.Common
 import ComposeVerif.Model.ShortTransform
 import ComposeVerif.Model.ShortDecode
+import ComposeVerif.Model.ShortMerge
 import ComposeVerif.Spec.Short
 /-! line-protocol ops for C03: short-syntax parsers, `transform.Canonical`, decoders, and the grammar specs -/
 open Lean
@@ -133,7 +134,19 @@ def pathNextOp : Handler := fun args =>
   let part := getStr args "part"
   Json.mkObj [("next", Json.arr ((TPath.next p part).map Json.str).toArray), ("nextK", Json.arr ((TPath.nextK p part).map Json.str).toArray)]
 
+/-- `Canonical(Merge(Canonical(doc1), doc2))` at `services.s.<attr>` (depends_on, networks, build) -/
+def twoDocsOp : Handler := fun args =>
+  match Val.ofJson (getObj args "doc1"), Val.ofJson (getObj args "doc2") with
+  | .ok v1, .ok v2 =>
+    match twoDocsAt (getStr args "attr") v1 v2 with
+    | none => Json.mkObj [("bad", "attr")]
+    | some (.ok r) => Json.mkObj [("ok", r.toJson)]
+    | some (.err _) => Json.mkObj [("err", "err")]
+    | some (.panic s) => Json.mkObj [("panic", s)]
+  | _, _ => Json.mkObj [("bad", "tree")]
+
 def handlers : List (String × Handler) := [
+  ("c03.twoDocs", twoDocsOp),
   ("c03.pathNext", pathNextOp),
   ("c03.parseVolume", parseVolumeOp), ("c03.parsePort", parsePortOp), ("c03.canonical", canonicalOp),
   ("c03.canonical2", canonical2Op), ("c03.decode", decodeOp), ("c03.pathClean", pathCleanOp), ("c03.validIP", validIPOp),
